@@ -507,7 +507,8 @@ fn reports(prop: &str, fam: Family, ins: &Instruction, class: Class) -> bool {
             _ => false,
         },
         "C04" => match fam {
-            Family::Stack => matches!(class, Rip | Gpr | Xmm | Mem | Seg | Flags | FaultState),
+            // (refusals at the edges of the stack area that the slot convention explains carry their K signature)
+            Family::Stack => matches!(class, Rip | Gpr | Xmm | Mem | Seg | Flags | FaultState | SpuriousErr | MissedFault),
             // RET's new RIP is the content of the slot it consumed: the only place where the slot choice shows
             Family::CallRet => matches!(class, Gpr | Xmm | Mem | Seg | Flags | FaultState) || (class == Rip && ins.mnemonic() == iced_x86::Mnemonic::Ret),
             _ => false,
@@ -665,7 +666,7 @@ impl HwMonitor {
                     Some(k) => format!("K:{}", k),
                     None => {
                         let base = format!("{:?}:{}:{}", d.class, form, d.key);
-                        if matches!(d.class, Class::SpuriousErr | Class::Panic) && (prop == "C06" || prop == "C05" || prop == "C03") {
+                        if matches!(d.class, Class::SpuriousErr | Class::Panic) && (prop == "C06" || prop == "C05" || prop == "C03" || prop == "C04") {
                             format!("?impl:{}|{}", form, base)
                         } else {
                             base
@@ -704,7 +705,13 @@ impl HwMonitor {
         let ins = match decode(bytes, rip) {
             Some(i) => i,
             None => {
-                col.count("undecodable_skipped", 1);
+                // byte strings the (strict) reference decoder rejects - a LOCK prefix where none is allowed, reserved
+                // encodings: when the CPU refuses them too, the step has to refuse them
+                if self.prop == "C06" && rng.below(2) == 0 {
+                    self.run_undecodable(col, rng, bytes, so);
+                } else {
+                    col.count("undecodable_skipped", 1);
+                }
                 return None;
             }
         };
@@ -743,6 +750,66 @@ impl HwMonitor {
             }
         }
         self.run_trial(col, &ins, &st, stratum)
+    }
+}
+
+impl HwMonitor {
+    fn run_undecodable(&mut self, col: &mut Collector, rng: &mut Rng, bytes: &[u8], so: &SteerOpts) {
+        let nop = Instruction::default();
+        let st = steer(rng, &nop, bytes, CODE_RIP, so);
+        let mut t = st.trial;
+        t.code = bytes.to_vec();
+        let Some(child) = self.child(col) else { return };
+        let mut faults = 0;
+        let mut last: Option<HwPost> = None;
+        let mut emu: Option<EmuPost> = None;
+        for round in 0..2 {
+            if child.prepare(&t).is_err() {
+                self.child = None;
+                return;
+            }
+            if round == 0 {
+                emu = Some(run_emu(&t, &child.shadow));
+            }
+            match child.step(&t) {
+                Ok(h) => {
+                    if h.outcome != HwOutcome::Completed {
+                        faults += 1;
+                    }
+                    last = Some(h);
+                }
+                Err(_) => {
+                    self.child = None;
+                    return;
+                }
+            }
+            // a second run only when the first one faulted and the emulator accepted: reproduce before reporting
+            if faults == 0 || !matches!(emu.as_ref().map(|e| &e.result), Some(EmuResult::Ok)) {
+                break;
+            }
+        }
+        col.eval(1);
+        let (Some(hw), Some(emu)) = (last, emu) else { return };
+        let key = format!("{:02x}", bytes.iter().copied().find(|b| !is_prefix(*b)).unwrap_or(0));
+        match (&emu.result, hw.outcome == HwOutcome::Completed) {
+            (EmuResult::Panic(p), _) => {
+                let tj = t.to_json();
+                let d = format!("[{}] (rejected by the reference decoder): step() panicked at {}:{}: {}", hex(bytes), p.file, p.line, p.msg.chars().take(160).collect::<String>());
+                col.violation(&format!("Panic:undecodable:{}", panic_sig(p)), || (d, json!({"kind": "hw", "trial": tj})));
+            }
+            (_, true) => col.count("cpu_executes_what_the_reference_decoder_rejects", 1),
+            (EmuResult::Err { .. }, false) => {
+                col.count("undecodable_refused_by_both", 1);
+                col.distinct_key(&format!("undecodable|{}|refused", key));
+            }
+            (EmuResult::Ok, false) => {
+                if faults >= 2 {
+                    let tj = t.to_json();
+                    let d = format!("[{}] is rejected by the reference decoder and by the CPU ({:?}), but step() returned Ok", hex(bytes), hw.outcome);
+                    col.violation(&format!("MissedFault:undecodable:opcode-{}", key), || (d, json!({"kind": "hw", "trial": tj})));
+                }
+            }
+        }
     }
 }
 
@@ -1207,8 +1274,34 @@ pub fn replay_trial(v: &serde_json::Value) -> i32 {
         }
     };
     let Some(ins) = decode(&t.code, t.rip) else {
-        println!("replay: undecodable bytes {}", hex(&t.code));
-        return 2;
+        // bytes the reference decoder rejects: only "who refuses" is compared
+        if let Err(e) = child.prepare(&t) {
+            println!("INCONCLUSIVE {}", e.0);
+            return 2;
+        }
+        let emu = run_emu(&t, &child.shadow);
+        let hw = match child.step(&t) {
+            Ok(h) => h,
+            Err(e) => {
+                println!("INCONCLUSIVE {}", e.0);
+                return 2;
+            }
+        };
+        println!("bytes [{}] (rejected by the reference decoder); hardware: {:?}", hex(&t.code), hw.outcome);
+        return match (&emu.result, hw.outcome == HwOutcome::Completed) {
+            (EmuResult::Panic(p), _) => {
+                println!("emulator: PANIC at {}:{}: {}", p.file, p.line, p.msg);
+                1
+            }
+            (EmuResult::Ok, false) => {
+                println!("emulator: Ok  <-- the CPU refuses these bytes");
+                1
+            }
+            (r, _) => {
+                println!("emulator: {}", match r { EmuResult::Ok => "Ok".to_string(), EmuResult::Err { msg, .. } => format!("Err({})", msg), EmuResult::Panic(_) => unreachable!() });
+                0
+            }
+        };
     };
     if let Err(e) = child.prepare(&t) {
         println!("INCONCLUSIVE {}", e.0);
